@@ -67,10 +67,11 @@ class PolyAFixer:
 
         if polyt_exon_count > 0 and polya_exon_count > 0:
             logger.debug("Both PolyA and PolyT fake terminal exons found: %d, %d" % (polya_exon_count, polyt_exon_count))
-        if polyt_exon_count + polya_exon_count == len(read_exons):
+        while polyt_exon_count + polya_exon_count >= len(read_exons):
+            # a short middle exon may be counted from both sides, so the sum can even exceed the number of exons
             logger.debug("All exons seem to be consist of polyA/T")
-            polyt_exon_count -= 1
-            polya_exon_count -= 1
+            polyt_exon_count = max(0, polyt_exon_count - 1)
+            polya_exon_count = max(0, polya_exon_count - 1)
 
         return polya_exon_count, polyt_exon_count
 
